@@ -77,13 +77,15 @@ def kinds_for(content):
 
 def scripts_for(content, chunking='all'):
     """List of (kind, chunks) - chunking 'all' = every composition; 'ws' = {whole, all single bytes};
-    'ws-' = as 'ws' except that the over-long-by-n script comes whole and as [content, content] (first copy
+    'w' = whole only; 'ws-' = as 'ws' except that the over-long-by-n script comes whole and as [content, content] (first copy
     ends on a chunk boundary) instead of 2n single bytes."""
     out = []
     n = len(content)
     for kind, data in kinds_for(content):
         comps = compositions(data)
-        if chunking == 'ws-' and kind == 'longn':
+        if chunking == 'w':
+            comps = [comps[0]]
+        elif chunking == 'ws-' and kind == 'longn':
             comps = [comps[0], (data[:n], data[n:])]
         elif chunking in ('ws', 'ws-'):
             comps = [comps[0]] if len(comps) == 1 else [comps[0], comps[-1]]
@@ -493,15 +495,16 @@ def _kclass(kind):
 
 
 def family_of(case):
-    return ('late-open' if case.get('late_open') else '') + ('known-length' if case.get('known_length', True) else 'unknown-length')
+    if case.get('late_open'):
+        return 'late-open'
+    return 'known-length' if case.get('known_length', True) else 'unknown-length'
 
 
 def signature(case, bad_kind, culprit=None):
-    sig = {'kind': bad_kind, 'cls': case['cls'], 'family': family_of(case), 'writers': len(case['writers'])}
+    """violated clause x blob class x family (x script class of the implicated writer, when there is one)."""
+    sig = {'kind': bad_kind, 'cls': case['cls'], 'family': family_of(case)}
     if culprit is not None:
         sig['culprit'] = _kclass(case['writers'][culprit]['kind'])
-    else:
-        sig['scripts'] = sorted({_kclass(w['kind']) for w in case['writers']})
     return sig
 
 
@@ -572,13 +575,14 @@ def _witness(ex, res):
         res.witness('conflicting_set_length_ignored')
 
 
-def explore(case, blob_dir, res, visited, use_hash=True, collect=None):
+def explore(case, blob_dir, res, visited, use_hash=True, collect=None, record_states=True):
     """All interleavings of one case.  visited: set of state digests shared by the caller (per batch).
     collect: optional dict to receive {'states': set, 'outcomes': set, 'first': trace, 'last': trace}."""
     digest = sdigest
     stack = [()]
     cj = None
     nviol = 0
+    seen_local = set()
     while stack:
         prefix = stack.pop()
         ex = Exec(case, blob_dir)
@@ -595,15 +599,20 @@ def explore(case, blob_dir, res, visited, use_hash=True, collect=None):
                 if bad is None:
                     c = ex.canon()
                     d = digest(c)
-                    if collect is not None:
+                    if collect is not None and collect.get('states') is not None:
                         collect['states'].add(d)
                     if use_hash:
                         if d in visited:
                             res.count('pruned_revisits')
                             break
                         visited.add(d)
-                    if d not in res.distinct['states']:
-                        res.distinct['states'].add(d)       # == res.distinct_add('states', c)
+                        isnew = True
+                    else:
+                        isnew = d not in seen_local
+                        seen_local.add(d)
+                    if isnew:
+                        if record_states:
+                            res.distinct['states'].add(d)       # == res.distinct_add('states', c)
                         _witness(ex, res)
                     en = ex.enabled()
                     if not en:
@@ -687,9 +696,11 @@ def run_trace(case, events, blob_dir):
 # families of cases (the bounded spaces), batches, workers
 # ================================================================================================
 
-def fam(name, cls, n, k, chunking, mode='known', order='multiset', batch=100, maxchunks=None):
+def fam(name, cls, n, k, chunking, mode='known', order='multiset', batch=100, maxchunks=None, big=False):
+    """big: the family's distinct-state digests are not shipped to the parent (tens of millions); its states
+    are counted per batch instead (sum over batches of the distinct states visited inside the batch)."""
     return {'name': name, 'cls': cls, 'n': n, 'k': k, 'chunking': chunking, 'mode': mode, 'order': order, 'batch': batch,
-            'maxchunks': maxchunks}
+            'maxchunks': maxchunks, 'big': big}
 
 
 def alphabet_of(f):
@@ -748,15 +759,15 @@ def families(tier):
             F.append(fam('pairs-n1', cls, 1, 2, 'all', order='ordered', batch=100))
             F.append(fam('triples-n1', cls, 1, 3, 'all', order='ordered', batch=128))
             F.append(fam('pairs-n3-all', cls, 3, 2, 'all', order='ordered', batch=256))
-            F.append(fam('pairs-n4-all', cls, 4, 2, 'all', order='ordered', batch=400))
-            F.append(fam('triples-n3-all', cls, 3, 3, 'all', batch=200))
-            F.append(fam('triples-n4-ws', cls, 4, 3, 'ws', batch=30))
+            F.append(fam('pairs-n4-all', cls, 4, 2, 'all', batch=200, big=True))
+            F.append(fam('triples-n3-all', cls, 3, 3, 'all', batch=100, big=True))
+            F.append(fam('triples-n4-ws-', cls, 4, 3, 'ws-', batch=20, big=True))
             F.append(fam('unknown-pairs-n1', cls, 1, 2, 'all', mode='unknown', batch=150))
-            F.append(fam('unknown-triples-n1', cls, 1, 3, 'all', mode='unknown', batch=200))
-            F.append(fam('unknown-pairs-n3-all', cls, 3, 2, 'all', mode='unknown', batch=200))
-            F.append(fam('unknown-triples-n3-ws', cls, 3, 3, 'ws', mode='unknown', batch=60))
+            F.append(fam('unknown-triples-n1', cls, 1, 3, 'all', mode='unknown', batch=100))
+            F.append(fam('unknown-pairs-n3-all', cls, 3, 2, 'all', mode='unknown', batch=300, big=True))
+            F.append(fam('unknown-triples-n3-w', cls, 3, 3, 'w', mode='unknown', batch=100, big=True))
             F.append(fam('late-pairs-n3-all', cls, 3, 2, 'all', mode='late', batch=100))
-            F.append(fam('late-triples-n3-ws', cls, 3, 3, 'ws', mode='late', batch=15))
+            F.append(fam('late-triples-n3-ws-', cls, 3, 3, 'ws-', mode='late', batch=10, big=True))
     return F
 
 
@@ -802,7 +813,7 @@ def work_batch(item, res):
     t0 = time.process_time()
     try:
         visited = set()
-        col = {'states': set(), 'outcomes': set(), 'first': None, 'last': None}
+        col = {'states': None, 'outcomes': set(), 'first': None, 'last': None}
         first_case = last_case = None
         seen_viol = set(res.violations)
         for case in cases_of(f, lo, hi):
@@ -812,7 +823,7 @@ def work_batch(item, res):
                 res.distinct_add('nontrivial', case_key(case))
             had_last = col['last']
             col['last'] = None
-            explore(case, d, res, visited, True, col)
+            explore(case, d, res, visited, True, col, record_states=not f.get('big'))
             if col['last'] is not None:
                 last_case = case
                 if first_case is None:
@@ -821,6 +832,9 @@ def work_batch(item, res):
                 col['last'] = had_last
             if want_sample and col['first'] is not None and len(res.samples) < 2:
                 res.sample({'family': f['name'], 'case': describe(case), 'one_complete_trace': col['last']})
+        res.count('states_batch_sum', len(visited))
+        if f.get('big'):
+            res.count('states_big_families_batch_sum', len(visited))
         if first_case is not None:
             _selfcheck_trace(first_case[0], first_case[1], None, d, res)
             _selfcheck_trace(last_case, col['last'], None, d, res)
@@ -852,7 +866,11 @@ def work_xcheck(item, res):
             res.count('xcheck_cases')
             res.count('xcheck_stateless_executions', rb.counters['executions'])
             res.count('xcheck_hashed_executions', ra.counters['executions'])
-            if ca['states'] != cb['states'] or ca['outcomes'] != cb['outcomes'] or set(ra.violations) != set(rb.violations):
+            if ra.violations or rb.violations:
+                # a violating case is cut short (25 counterexamples) at different points by the two searches;
+                # the comparison is only meaningful on violation-free cases.  The findings are kept below.
+                res.count('xcheck_cases_not_compared_because_violating')
+            elif ca['states'] != cb['states'] or ca['outcomes'] != cb['outcomes']:
                 res.error(f'C01 state-hashing cross-check failed for {describe(case)}: hashed {len(ca["states"])} states / '
                           f'{len(ca["outcomes"])} outcomes / {len(ra.violations)} violation signatures, stateless '
                           f'{len(cb["states"])} / {len(cb["outcomes"])} / {len(rb.violations)}')
@@ -1097,6 +1115,11 @@ def run(ctx):
     items.sort(key=lambda it: 0 if (it[0] == 'batch' and it[1]['k'] == 3) else 1 if it[0] == 'single' else 2 if it[0] == 'xcheck' else 3)
     ctx.pmap(work, items)
     res = ctx.res
+    if res.counters.get('states_big_families_batch_sum'):
+        # exact distinct count for the small families + per-batch distinct counts for the big ones
+        exact = len(res.distinct.pop('states', ()))
+        res.counters['states_exact_distinct_small_families'] = exact
+        res.counters['states'] = exact + res.counters['states_big_families_batch_sum']
     spaces = {}
     for f in fams:
         spaces[f"{f['name']}/{f['cls']}"] = count_cases(f)
@@ -1144,7 +1167,12 @@ def replay(data):
             lines = [f'boundary single {name}/{cls}'] + log
         else:
             case = case_from_json(data['case'])
-            bad, log = run_trace(case, list(data['events']), d)
+            try:
+                bad, log = run_trace(case, list(data['events']), d)
+            except HarnessDivergence as x:
+                # the recorded schedule is not a schedule of this tree (e.g. the second executor job of a
+                # double-write counterexample does not exist once the defect is gone): nothing reproduced
+                return False, f'{describe(case)}\nrecorded events: {" ".join(data["events"])}\nDIVERGED (not reproduced): {x}'
             lines = [describe(case)] + ['  ' + ' | '.join(str(x) for x in row) for row in log]
         if bad is not None:
             lines.append(f'VIOLATED: {bad[0]}: {bad[1]}')
